@@ -780,7 +780,13 @@ for(i=0; i<HT_SIZE; i++) printf("ht[%d]=%d    ",i,ht[i]);
 
     updSect = 0;
     found = FALSE;
+    /* a hash chain cannot be longer than the volume: stop on cycles */
+    int32_t steps = vol->lastBlock - vol->firstBlock + 1;
     do {
+        if ( steps-- <= 0 ) {
+            (*adfEnv.wFct)("adfNameToEntryBlk : hash chain too long (cycle?)");
+            return -1;
+        }
         if (adfReadEntryBlock(vol, nSect, entry)!=RC_OK)
 			return -1;
         if (nameLen==entry->nameLen) {
